@@ -1191,6 +1191,21 @@ FLUSH_JOB_ZUC256_EEA3:
         vmovdqa32       [state + _zuc_state + i*64]{k1}, zmm0
 %assign i (i + 1)
 %endrep
+
+        ;; last job of the manager handed back: clear keystream and digests of all lanes
+        cmp     qword [state + _zuc_lanes_in_use], 0
+        jne     %%lanes_still_in_use_eia3
+%assign i 0
+%rep 4
+        vmovdqa64       [state + _zuc_args_digest + i*64], zmm0
+%assign i (i + 1)
+%endrep
+%assign i 0
+%rep 32
+        vmovdqa64       [state + _zuc_args_KS + i*64], zmm0
+%assign i (i + 1)
+%endrep
+%%lanes_still_in_use_eia3:
 %endif
 
 %ifdef SAFE_DATA
